@@ -1,7 +1,7 @@
 (* C53 - the three clauses of the property, for all chooser functions, data sets and programs *)
 From Coq Require Import List ZArith NArith Bool Lia Permutation.
 Import ListNotations.
-From SAV.orm Require Import Shard ShardDb ShardInv ShardFlush ShardLoad ShardOps.
+From SAV.orm Require Import Shard ShardDb ShardInv ShardFlush ShardLoad ShardOps ShardDelete.
 Open Scope Z_scope.
 
 Lemma dedup_nil : forall l, dedup l = [] -> l = [].
@@ -41,6 +41,33 @@ Proof.
   induction l as [|a l IH]; intros [|o] y x Hn Hx; simpl in *; try discriminate; try tauto.
   - injection Hn as ->. destruct Hx; auto.
   - destruct Hx as [Hx|Hx]; auto. destruct (IH _ _ _ Hn Hx); auto.
+Qed.
+
+
+Lemma row_eqb_refl : forall a, row_eqb a a = true.
+Proof. intros [a b c]. unfold row_eqb. simpl. now rewrite !Z.eqb_refl. Qed.
+
+(* a flush of a state without pending objects and without unflushed changes emits nothing *)
+Lemma pass_upd_clean : forall l d, Forall clean l -> pass flush_upd l d = Ok (l, d, []).
+Proof.
+  induction l as [|i l IH]; intros d Hc; simpl; auto. inversion Hc as [|? ? [Hp Hcl] Hc']; subst.
+  assert (E : flush_upd i d = Ok (i, d, [])).
+  { unfold flush_upd. destruct (i_life i) eqn:El; auto. destruct (i_tok i); auto.
+    rewrite (Hcl eq_refl). now rewrite row_eqb_refl. }
+  rewrite E. now rewrite IH.
+Qed.
+Lemma pass_ins_clean : forall sc l d, Forall clean l -> pass (flush_ins sc) l d = Ok (l, d, []).
+Proof.
+  induction l as [|i l IH]; intros d Hc; simpl; auto. inversion Hc as [|? ? [Hp Hcl] Hc']; subst.
+  assert (E : flush_ins sc i d = Ok (i, d, [])).
+  { unfold flush_ins. destruct (i_life i); auto. congruence. }
+  rewrite E. now rewrite IH.
+Qed.
+Lemma flush_clean_id : forall sc st st', Forall clean (insts st) -> flush sc st = Ok st' ->
+  insts st' = insts st /\ db st' = db st /\ wlog st' = wlog st /\ rlog st' = rlog st /\ committed st' = committed st.
+Proof.
+  intros sc st st' Hc H. unfold flush in H. rewrite (pass_upd_clean _ _ Hc), (pass_ins_clean sc _ _ Hc) in H.
+  injection H as <-. simpl. rewrite !app_nil_r. auto.
 Qed.
 
 Section Thm.
@@ -103,6 +130,24 @@ Section Thm.
     rewrite Hw. now apply flush_routed.
   Qed.
 
+  Lemma get_clean_frame : forall st k t st' ro, Inv (insts st) (db st) -> Forall clean (insts st) ->
+    do_get sc ic ec st k t = Ok (st', ro) -> wlog st' = wlog st /\ db st' = db st /\ exists x, insts st' = insts st ++ x.
+  Proof.
+    intros st k t st' ro HI Hc H. destruct (do_get_cases _ _ _ _ _ _ _ _ H) as [[-> _]|[os [Eq _]]].
+    - repeat split; auto. exists []. now rewrite app_nil_r.
+    - destruct (do_query_spec _ _ _ _ _ _ _ HI Eq) as [_ [st1 [Ef [Hd [_ [Hw [_ [_ [_ [[x Hx] _]]]]]]]]]].
+      destruct (flush_clean_id _ _ _ Hc Ef) as [Hi [Hd1 [Hw1 _]]]. repeat split; try congruence.
+      exists x. congruence.
+  Qed.
+
+  Lemma do_set_frame : forall st o g v st', do_set st o g v = Ok st' ->
+    wlog st' = wlog st /\ db st' = db st /\ rlog st' = rlog st /\
+    insts st' = upd_nth o (fun i => mkInst (mkRow (r_pk (i_cur i)) g v) (i_old i) (i_life i) (i_tok i)) (insts st).
+  Proof.
+    intros st o g v st' H. unfold do_set in H. destruct (nth_error (insts st) o) as [i0|]; [|discriminate].
+    destruct (i_life i0); try discriminate; injection H as <-; simpl; auto.
+  Qed.
+
   (* INSERT goes to the preset token / shard_chooser(row); UPDATE and DELETE go to the identity token
      of the persistent object with that primary key; nothing else is written *)
   Theorem writes_are_routed : forall st o st' r, reach st -> step sc ic ec st o = Ok (st', r) ->
@@ -118,12 +163,20 @@ Section Thm.
     - destruct (flush sc st) as [s|] eqn:E; [|discriminate]. injection H as <- <-. now apply flush_routed.
     - unfold do_commit in H. destruct (flush sc st) as [s|] eqn:E; [|discriminate]. injection H as <- <-. simpl.
       now apply flush_routed.
-    - unfold do_delete in H. destruct (nth_error (insts st) o) as [i0|] eqn:En; [|discriminate].
+    - unfold do_delete in H. destruct (forallb (valid_del st) os) eqn:Ev; [|discriminate].
+      destruct (flush sc st) as [st1|] eqn:Ef; [|discriminate].
+      destruct (delete_all st1 (dedup os)) as [s2|] eqn:Ed; [|discriminate]. injection H as <- <-.
+      destruct (delete_all_spec _ _ _ Ed) as [Hw2 _].
+      destruct (flush_routed _ _ Ef) as [delta [Hw HF]]. exists (delta ++ flat_map (del_of st1) (dedup os)).
+      split; [rewrite Hw2, Hw; now rewrite app_assoc|]. apply Forall_app. split; auto.
+      apply Forall_forall. intros w Hin. apply in_flat_map in Hin. destruct Hin as [o [Ho Hw']].
+      apply (proj1 (in_dedup _ _)) in Ho. rewrite forallb_forall in Ev. specialize (Ev _ Ho). unfold valid_del in Ev.
+      destruct (nth_error (insts st) o) as [i0|] eqn:En; [|discriminate].
       destruct (i_life i0) eqn:El; try discriminate. destruct (i_tok i0) as [t|] eqn:Et; [|discriminate].
-      destruct (flush sc st) as [st1|] eqn:Ef; [|discriminate]. injection H as <- <-. simpl.
-      destruct (flush_routed _ _ Ef) as [delta [Hw HF]]. exists (delta ++ [WDel t (r_pk (i_cur i0))]).
-      split; [rewrite Hw; now rewrite app_assoc|]. apply Forall_app. split; auto.
-      constructor; [|constructor]. simpl. exists i0. repeat split; auto. eapply nth_error_In; eauto.
+      destruct (Forall2_nth _ _ _ _ _ (flush_frel _ _ _ Ef) En) as [i1 [En1 Hr]].
+      unfold frel in Hr. rewrite El in Hr. destruct Hr as [_ [Ht1 Hc1]].
+      unfold del_of in Hw'. rewrite En1, Ht1, Et in Hw'. destruct Hw' as [<-|[]]. simpl.
+      exists i0. repeat split; auto; [eapply nth_error_In; eauto | congruence].
     - destruct (do_query sc ec st q tgt) as [[s os]|] eqn:E; [|discriminate]. injection H as <- <-.
       eapply query_routed; eauto.
     - destruct (do_get sc ic ec st k t) as [[s ro]|] eqn:E; [|discriminate]. injection H as <- <-.
@@ -140,6 +193,14 @@ Section Thm.
       + destruct J as [J _]. congruence.
       + destruct J as [? [? ?]]. exists i0. repeat split; auto; try congruence. eapply nth_error_In; eauto.
       + destruct J as [? [? ?]]. exists i0. repeat split; auto; try congruence. eapply nth_error_In; eauto.
+    - unfold do_merge in H. destruct (flush sc st) as [st1|] eqn:Ef; [|discriminate].
+      pose proof (flush_inv _ _ _ Ef HI) as HI1. pose proof (flush_clean _ _ _ Ef HI) as Hc1.
+      destruct (do_get sc ic ec st1 (r_pk r0) (Some t)) as [[st2 ro]|] eqn:Eg; [|discriminate].
+      destruct (get_clean_frame _ _ _ _ _ HI1 Hc1 Eg) as [Hw2 _].
+      destruct ro as [o|].
+      + destruct (do_set st2 o (r_grp r0) (r_val r0)) as [st3|] eqn:Es; [|discriminate]. injection H as <- <-.
+        destruct (do_set_frame _ _ _ _ _ Es) as [Hw3 _]. rewrite Hw3, Hw2. now apply flush_routed.
+      + injection H as <- <-. simpl. rewrite Hw2. now apply flush_routed.
   Qed.
 
   (* the data the session sees is exactly the replay of the emitted statements on the initial data,
@@ -219,8 +280,8 @@ Section Thm.
   (* get with an identity token consults only that shard: the identity map under (pk, token), then at
      most one SELECT, on that shard; the answer is an object of that shard with that primary key, or
      None exactly when the shard has no such row *)
-  Theorem get_with_token_hits_only_that_shard : forall st k t st' res,
-    reach st -> do_get sc ic ec st k (Some t) = Ok (st', res) ->
+  Lemma get_with_token_inv : forall st k t st' res,
+    Inv (insts st) (db st) -> do_get sc ic ec st k (Some t) = Ok (st', res) ->
     (rlog st' = rlog st \/ rlog st' = rlog st ++ [t]) /\
     match res with
     | Some o => exists i, nth_error (insts st') o = Some i /\ i_tok i = Some t /\ r_pk (i_cur i) = k /\
@@ -228,7 +289,7 @@ Section Thm.
     | None => has_pk k (db st' t) = false
     end.
   Proof.
-    intros st k t st' res HR H. pose proof (proj1 (reachable_good _ _ _ _ _ Hwf HR)) as HI.
+    intros st k t st' res HI H.
     destruct (do_get_cases _ _ _ _ _ _ _ _ H) as [[-> [o [t' [-> [Hl ->]]]]]|[os [Eq Hres]]].
     - split; auto. destruct (lookup_some _ _ _ _ Hl) as [i [Hn [Hlf [Ht Hk]]]]. exists i. repeat split; auto.
       destruct (inv_row _ _ HI i (nth_error_In _ _ Hn) Hlf) as [t0 [Ht0 [Hin Hpk]]].
@@ -247,5 +308,84 @@ Section Thm.
           unfold view in Hvo. destruct (nth_error (insts st') o) as [i|] eqn:En; [|discriminate].
           destruct (i_tok i) as [ti|] eqn:Eti; [|discriminate]. injection Hvo as E1 E2.
           exists i. repeat split; try congruence. apply has_pk_true. rewrite <- Hq. unfold pks. now apply in_map.
+  Qed.
+
+  Theorem get_with_token_hits_only_that_shard : forall st k t st' res,
+    reach st -> do_get sc ic ec st k (Some t) = Ok (st', res) ->
+    (rlog st' = rlog st \/ rlog st' = rlog st ++ [t]) /\
+    match res with
+    | Some o => exists i, nth_error (insts st') o = Some i /\ i_tok i = Some t /\ r_pk (i_cur i) = k /\
+                          has_pk k (db st' t) = true
+    | None => has_pk k (db st' t) = false
+    end.
+  Proof. intros st k t st' res HR. exact (get_with_token_inv _ _ _ _ _ (proj1 (reachable_good _ _ _ _ _ Hwf HR))). Qed.
+
+  (* ===== several deletes in one flush ===== *)
+
+  (* deleting any set of persistent objects in ONE flush removes exactly the rows of their identities
+     (pk, token), each from the shard named by the token: a row of shard s survives iff no deleted object
+     has token s and that primary key - in particular a row with the same primary key in ANOTHER shard is
+     deleted only if its own object is deleted too, and then it is.  One DELETE per object is emitted. *)
+  Theorem flush_deletes_exactly_the_deleted_identities : forall st os st',
+    reach st -> do_delete sc st os = Ok st' ->
+    exists st1, flush sc st = Ok st1 /\
+      wlog st' = wlog st1 ++ flat_map (del_of st1) (dedup os) /\
+      (forall o, In o os -> exists i, nth_error (insts st) o = Some i /\ i_life i = Persistent /\
+                            del_of st1 o = match i_tok i with Some t => [WDel t (r_pk (i_cur i))] | None => [] end) /\
+      (forall s x, In x (db st' s) <->
+                   In x (db st1 s) /\ ~ exists o, In o os /\ is_identity st1 o s (r_pk x)).
+  Proof.
+    intros st os st' HR H. unfold do_delete in H. destruct (forallb (valid_del st) os) eqn:Ev; [|discriminate].
+    destruct (flush sc st) as [st1|] eqn:Ef; [|discriminate]. exists st1. split; auto.
+    destruct (delete_all_spec _ _ _ H) as [Hw [_ [_ [_ Hdb]]]]. split; auto. split.
+    - intros o Ho. rewrite forallb_forall in Ev. specialize (Ev _ Ho). unfold valid_del in Ev.
+      destruct (nth_error (insts st) o) as [i0|] eqn:En; [|discriminate].
+      destruct (i_life i0) eqn:El; try discriminate. destruct (i_tok i0) as [t|] eqn:Et; [|discriminate].
+      destruct (Forall2_nth _ _ _ _ _ (flush_frel _ _ _ Ef) En) as [i1 [En1 Hr]].
+      unfold frel in Hr. rewrite El in Hr. destruct Hr as [_ [Ht1 Hc1]].
+      exists i0. repeat split; auto. unfold del_of. now rewrite En1, Ht1, Et, Hc1.
+    - intros s x. rewrite Hdb. split; intros [Hx Hn]; split; auto; intros [o [Ho Hi]]; apply Hn; exists o; split; auto;
+        [now apply in_dedup | now apply (proj1 (in_dedup _ _))].
+  Qed.
+
+  (* ===== merge ===== *)
+
+  (* merge of a detached object whose identity key is (pk, t): after the autoflush the target is looked
+     up under (pk, t) only - identity map, then at most one SELECT on shard t.  The returned object shows
+     the given values and either carries token t (and shard t has that primary key), or is a NEW pending
+     object (no token yet) and shard t has no such row.  No other object changes. *)
+  Theorem merge_targets_pk_and_token : forall st r t st' ro,
+    reach st -> do_merge sc ic ec st r t = Ok (st', ro) ->
+    exists st1 o i, flush sc st = Ok st1 /\ ro = Some o /\ db st' = db st1 /\
+      (rlog st' = rlog st \/ rlog st' = rlog st ++ [t]) /\
+      nth_error (insts st') o = Some i /\ i_cur i = r /\
+      ((i_tok i = Some t /\ has_pk (r_pk r) (db st' t) = true) \/
+       (i_life i = Pending /\ i_tok i = None /\ has_pk (r_pk r) (db st' t) = false /\ (length (insts st1) <= o)%nat)) /\
+      (forall o' i', o' <> o -> nth_error (insts st1) o' = Some i' -> nth_error (insts st') o' = Some i').
+  Proof.
+    intros st r t st' ro HR H. pose proof (proj1 (reachable_good _ _ _ _ _ Hwf HR)) as HI.
+    unfold do_merge in H. destruct (flush sc st) as [st1|] eqn:Ef; [|discriminate].
+    pose proof (flush_inv _ _ _ Ef HI) as HI1. pose proof (flush_clean _ _ _ Ef HI) as Hc1.
+    destruct (flush_parts _ _ _ Ef) as [? [? [? [? [_ [_ [_ [_ Hr1]]]]]]]].
+    destruct (do_get sc ic ec st1 (r_pk r) (Some t)) as [[st2 ro2]|] eqn:Eg; [|discriminate].
+    destruct (get_clean_frame _ _ _ _ _ HI1 Hc1 Eg) as [_ [Hd2 [xx Hx2]]].
+    destruct (get_with_token_inv _ _ _ _ _ HI1 Eg) as [Hrl Hres].
+    assert (Hkeep : forall o' i', nth_error (insts st1) o' = Some i' -> nth_error (insts st2) o' = Some i').
+    { intros o' i' Hn. rewrite Hx2. rewrite nth_error_app1; auto. apply nth_error_Some. congruence. }
+    destruct ro2 as [o|].
+    - destruct (do_set st2 o (r_grp r) (r_val r)) as [st3|] eqn:Es; [|discriminate]. injection H as <- <-.
+      destruct (do_set_frame _ _ _ _ _ Es) as [_ [Hd3 [Hr3 Hi3]]].
+      destruct Hres as [i [Hn [Ht [Hk Hp]]]].
+      exists st1, o, (mkInst (mkRow (r_pk (i_cur i)) (r_grp r) (r_val r)) (i_old i) (i_life i) (i_tok i)).
+      split; auto. split; auto. split; [congruence|]. split; [rewrite Hr3, <- Hr1; exact Hrl|].
+      split; [rewrite Hi3; exact (nth_upd_same _ _ _ _ Hn)|]. split; [simpl; rewrite Hk; now destruct r|].
+      split; [left; simpl; split; auto; rewrite Hd3; exact Hp|].
+      intros o' i' Hne Hn'. rewrite Hi3. rewrite nth_upd_other by auto. auto.
+    - injection H as <- <-. simpl.
+      exists st1, (length (insts st2)), (mkInst r r Pending None).
+      split; auto. split; auto. split; auto. split; [rewrite <- Hr1; exact Hrl|].
+      split; [rewrite nth_error_app2 by lia; now rewrite Nat.sub_diag|]. split; auto. split.
+      + right. repeat split; auto. rewrite Hx2, app_length. lia.
+      + intros o' i' _ Hn'. rewrite nth_error_app1; [now apply Hkeep|]. apply nth_error_Some. rewrite (Hkeep _ _ Hn'). discriminate.
   Qed.
 End Thm.
